@@ -161,7 +161,15 @@ def execute(case):
     nattr0 = {v: dict(net.G.nodes[v]) for v in net.G.nodes()}
     try:
         target = gcmpy.JointExcessJointDegreeMatrices({TN.EJKS: ejks, TN.EDGE_NAMES: list(case["tops"])})
-        params = {TN.NETWORK: net, TN.EJKS: target}
+        first_target = target
+        if case.get("retarget"):
+            # history: the object is built with ANOTHER (uniform, full-support) target and re-targeted through the ejks setter
+            uni = {t: {k: 1.0 / DEN for k in d} for t, d in ejks.items()}
+            for t, rows in zip(case["tops"], case["target"]):
+                for r in rows:
+                    uni[t][tuple(r["a"]) + tuple(r["b"])] = 1.0 / DEN
+            first_target = gcmpy.JointExcessJointDegreeMatrices({TN.EJKS: uni, TN.EDGE_NAMES: list(case["tops"])})
+        params = {TN.NETWORK: net, TN.EJKS: first_target}
         if case.get("limit", -1) >= 0:
             params[TN.CONVERGENCE_LIMIT] = case["limit"]
         if case.get("search", -1) >= 0:
@@ -171,6 +179,8 @@ def execute(case):
         tr["raised"] = "construction: %s: %s" % (type(ex).__name__, str(ex)[:80])
         tr["g0_after"] = _graph_edges(net.G)
         return tr
+    if case.get("retarget"):
+        mcmc.ejks = target
     pre = case.get("pre")
     if pre:
         # history on ONE rewiring object: it first rewired another network (same vertex labels, other joint degrees),
